@@ -54,7 +54,8 @@ def handle (fn : String) (a : Json) : R Json := do
       ("sweepLiveCmp", Json.str (cmpName Gen.Nonce.sweepLiveCmp)), ("evictCmp", Json.str (cmpName Gen.Nonce.evictCmp)),
       ("ttlRejectCmp", Json.str (cmpName Gen.Nonce.ttlRejectCmp)), ("capRejectCmp", Json.str (cmpName Gen.Nonce.capRejectCmp)),
       ("shape", ofBool (Gen.Nonce.clockReadBeforeLock && Gen.Nonce.singleLock && Gen.Nonce.criticalSectionOrder
-        && Gen.Nonce.evictsOldest && Gen.Nonce.sweepFromFront && Gen.Nonce.expiryIsNowPlusTtl))])
+        && Gen.Nonce.evictsOldest && Gen.Nonce.sweepFromFront && Gen.Nonce.expiryIsNowPlusTtl
+        && Gen.Nonce.capDefaultIsConst)), ("fingerprint", Json.str Gen.Nonce.fingerprint)])
   | "validate" => pure (ofBool (validate (← intF a "ttl") (← intF a "cap")))
   | "seq" =>
     let cap ← natF a "cap"
